@@ -1,7 +1,9 @@
 // C17 correspondence harness: a private TestRegistry (inside a TestTestingFixture that lives for the
 // whole case) with a real SetPointerPlugin and up to 10 recording plugins; scripted tests redirect
 // 40 global pointer variables through UT_PTR_SET and end by pass / FAIL / FAIL_C / throw.
-// Ops: `set <ptr> <val>` lines collect the body of the next test, `run <outcome>` runs it.
+// Ops: `newset` constructs a further SetPointerPlugin object (the constructor resets the table index);
+// `install|enable|disable set` address the most recent one, older ones by id (99, 100, ...).
+// `set <ptr> <val>` lines collect the body of the next test, `run <outcome>` runs it.
 // Observables: the chain after every install/remove/enable/disable/reset (walked through
 // getFirstPlugin()/getNext()), the pre/post order log, number of redirections carried out, verdict,
 // and the 40 pointer values after each test.
@@ -32,6 +34,7 @@ struct RecPlugin : public TestPlugin {
 // two objects share the name "p3" (ids 3 and 8) and "p0" (ids 0 and 9): used by the tagged stream only
 const char* REC_NAMES[NREC] = { "p0", "p1", "p2", "p3", "p4", "p5", "p6", "p7", "p3", "p0" };
 const unsigned SET_ID = 99;
+std::vector<SetPointerPlugin*>* g_sets = 0;
 
 struct Script { std::vector<std::pair<unsigned, unsigned> > sets; std::string outcome; };
 Script* g_script = 0;
@@ -75,27 +78,38 @@ void run_case(const vh::Case& c) {
     TestTestingFixture fixture;
     fixture.setTestFunction(body);
     TestRegistry* reg = fixture.getRegistry();
-    SetPointerPlugin setPlugin("SetPointerPlugin");
+    // SetPointerPlugin objects: ids SET_ID, SET_ID+1, ...; `newset` constructs a further one (the constructor
+    // resets the process-wide table index); `set` in install/enable/disable means the most recent one
+    std::vector<SetPointerPlugin*> sets;
+    g_sets = &sets;
+    sets.push_back(new SetPointerPlugin("SetPointerPlugin"));
     std::vector<RecPlugin*> rec;
     for (unsigned i = 0; i < NREC; i++) rec.push_back(new RecPlugin(REC_NAMES[i], i));
 
     struct Local {
-        static unsigned id_of(TestPlugin* p, SetPointerPlugin* sp) {
-            if (p == sp) return SET_ID;
+        static unsigned id_of(TestPlugin* p) {
+            for (size_t k = 0; k < g_sets->size(); k++) if (p == (*g_sets)[k]) return SET_ID + (unsigned) k;
             return ((RecPlugin*) p)->id;
+        }
+        static TestPlugin* by_id(const std::string& w, std::vector<RecPlugin*>& rec, unsigned* id) {
+            if (w == "set") { *id = SET_ID + (unsigned) g_sets->size() - 1; return g_sets->back(); }
+            *id = (unsigned) vh::to_u64(w);
+            if (*id < NREC) return rec[*id];
+            if (*id >= SET_ID && *id < SET_ID + g_sets->size()) return (*g_sets)[*id - SET_ID];
+            return 0;
         }
         static bool in_chain(TestRegistry* reg, TestPlugin* q) {
             for (TestPlugin* p = reg->getFirstPlugin(); p && p != NullTestPlugin::instance(); p = p->getNext())
                 if (p == q) return true;
             return false;
         }
-        static void emit_chain(TestRegistry* reg, SetPointerPlugin* sp) {
+        static void emit_chain(TestRegistry* reg) {
             std::string s = "chain";
             bool any = false; int guard = 0;
             for (TestPlugin* p = reg->getFirstPlugin(); p != NullTestPlugin::instance(); p = p->getNext()) {
                 if (!p) { s += " BROKEN"; any = true; break; }
                 if (++guard > 64) { s += " CYCLE"; any = true; break; }
-                char buf[32]; snprintf(buf, sizeof buf, " %u%c", id_of(p, sp), p->isEnabled() ? '+' : '-');
+                char buf[32]; snprintf(buf, sizeof buf, " %u%c", id_of(p), p->isEnabled() ? '+' : '-');
                 s += buf; any = true;
             }
             if (!any) s += " -";
@@ -107,40 +121,44 @@ void run_case(const vh::Case& c) {
     for (size_t i = 0; i < c.ops.size(); i++) {
         const vh::Words& w = c.ops[i];
         if (w[0] == "install" && w.size() == 2) {                     // install <rec index | set>
-            TestPlugin* p = 0; unsigned id = 0; const char* kind = "rec";
-            if (w[1] == "set") { p = &setPlugin; id = SET_ID; kind = "set"; }
-            else { id = (unsigned) vh::to_u64(w[1]); if (id < NREC) p = rec[id]; }
+            unsigned id = 0;
+            TestPlugin* p = Local::by_id(w[1], rec, &id);
+            const char* kind = id >= SET_ID ? "set" : "rec";
             if (!p || Local::in_chain(reg, p)) { vh::emit("> skip"); continue; }     // installing a linked object twice makes a cycle
             vh::emit("> install %u %s %s", id, p->getName().asCharString(), kind);
             reg->installPlugin(p);
-            Local::emit_chain(reg, &setPlugin);
+            Local::emit_chain(reg);
         }
         else if (w[0] == "remove" && w.size() == 2) {
             if (w[1] == "null") { vh::emit("> skip"); continue; }       // the sentinel's name: outside the quantifier (see report)
             vh::emit("> remove %s", w[1].c_str());
             reg->removePluginByName(w[1].c_str());
-            Local::emit_chain(reg, &setPlugin);
+            Local::emit_chain(reg);
         }
         else if (w[0] == "reset" && w.size() == 1) {
             vh::emit_op("reset");
             reg->resetPlugins();
-            Local::emit_chain(reg, &setPlugin);
+            Local::emit_chain(reg);
         }
         else if ((w[0] == "enable" || w[0] == "disable") && w.size() == 2) {
-            TestPlugin* p = 0; unsigned id = 0;
-            if (w[1] == "set") { p = &setPlugin; id = SET_ID; }
-            else { id = (unsigned) vh::to_u64(w[1]); if (id < NREC) p = rec[id]; }
+            unsigned id = 0;
+            TestPlugin* p = Local::by_id(w[1], rec, &id);
             if (!p) { vh::emit("> skip"); continue; }
             vh::emit("> %s %u", w[0].c_str(), id);
             if (w[0] == "enable") p->enable(); else p->disable();
-            Local::emit_chain(reg, &setPlugin);
+            Local::emit_chain(reg);
+        }
+        else if (w[0] == "newset" && w.size() == 1) {                  // construct a fresh SetPointerPlugin (not installed yet)
+            if (sets.size() >= 16) { vh::emit("> skip"); continue; }
+            vh::emit("> newset %u", SET_ID + (unsigned) sets.size());
+            sets.push_back(new SetPointerPlugin("SetPointerPlugin"));
         }
         else if (w[0] == "get" && w.size() == 2) {
             vh::emit("> get %s", w[1].c_str());
             TestPlugin* p = reg->getPluginByName(w[1].c_str());
             if (!p) vh::emit("got none");
             else if (p == NullTestPlugin::instance()) vh::emit("got sentinel");
-            else vh::emit("got %u", Local::id_of(p, &setPlugin));
+            else vh::emit("got %u", Local::id_of(p));
         }
         else if (w[0] == "set" && w.size() == 3) {                     // set <ptr index> <value index>: appended to the next test's body
             unsigned l = (unsigned) vh::to_u64(w[1]), v = (unsigned) vh::to_u64(w[2]);
